@@ -119,6 +119,10 @@ impl Module for Target {
         let id = msg.header().id as usize;
         net::log("msg", self.inc, id as i64);
         apply(&self.cmds[id]);
+        if self.cmds[id] != Cmd::Nop {
+            // the shutdown takes effect at the end of this event: a farewell sent after the request still leaves
+            send(Message::default().id(61_000 + id as u16), "hello");
+        }
     }
     fn reset(&mut self) {
         net::log("reset", self.inc, 0);
@@ -296,6 +300,9 @@ pub fn run_case(case: &Case) -> Result<(bool, Vec<&'static str>), Failure> {
                 if active {
                     want_t.push(r("t", "msg", inc, id as i64, now));
                     request = Some(cmds[id].clone());
+                    if cmds[id] != Cmd::Nop {
+                        want_b.push(r("b", "brecv", 61_000 + id as i64, 0, now));
+                    }
                 } else {
                     down_msgs += 1;
                 }
@@ -437,7 +444,7 @@ impl Prop for C09 {
 
     fn rule() -> String {
         "generated fault placements: a target module (2 start-up stages, a timer task - created with tokio::spawn or spawn_local - ticking every 1..6 ms up to 7 times per incarnation), a \
-         driver and a bystander (greeted by the target through a gate from its last start-up stage in every incarnation); messages injected directly and sent by the driver over a latency channel (in transit at shutdown), messages to the \
+         driver and a bystander (greeted by the target through a gate from its last start-up stage in every incarnation, and sent a farewell by every handler right after it requested a shutdown); messages injected directly and sent by the driver over a latency channel (in transit at shutdown), messages to the \
          bystander routed through a transit gate owned by the target; shutdown / shutdown-and-restart(0..40 ms) commands attached to generated \
          messages, to generated (incarnation, tick) points of the task and to the last start-up stage of a restart, up to several cycles. All instants are distinct by construction \
          (microsecond offsets). Oracle: an incarnation model yields the exact log (kind, incarnation, time) of the target (start stages once each at \
